@@ -46,6 +46,14 @@ class ExecGen:
             f = r.choice(SERVICES)
             self.tags.add("pair:self")
             return f, f
+        if 0.06 <= k < 0.1:
+            # a service that was never registered (of a registered chain), as source or as destination: requests and receipts that
+            # name it are refused — for a receipt the contract even dereferences the missing record, a panic the bolt VM contains:
+            # a FAILED receipt, no counter moved, nothing recorded, nothing delivered
+            reg = r.choice(SERVICES)
+            ghost = r.choice(["c1:s9", "c2:s9", "c4:s9"])
+            self.tags.add("pair:unregistered-service")
+            return (ghost, reg) if r.random() < 0.5 else (reg, ghost)
         while True:
             f = r.choice(SERVICES)
             t = r.choice(SERVICES)
